@@ -36,6 +36,38 @@ class ReplayChooser:
         return runnable[0]
 
 
+class PhaseChooser:
+    """Explicit phases [(process index, n)]: the process runs until it has
+    passed n yield points (None = until it ends), then the next phase starts.
+    After the last phase processes run to completion in index order."""
+
+    def __init__(self, procs, phases):
+        self.procs = list(procs)
+        self.phases = [list(p) for p in phases]
+        self.k = 0
+        self.seen = 0
+
+    def __call__(self, runnable, current, step):
+        while self.k < len(self.phases):
+            idx, n = self.phases[self.k]
+            proc = self.procs[idx]
+            if proc not in runnable:
+                self.k += 1
+                self.seen = 0
+                continue
+            if current is proc:
+                self.seen += 1
+                if n is not None and self.seen > n:
+                    self.k += 1
+                    self.seen = 0
+                    continue
+            return proc
+        for p in self.procs:
+            if p in runnable:
+                return p
+        return runnable[0]
+
+
 class RandomWalkChooser:
     def __init__(self, rng, p_switch):
         self.rng = rng
